@@ -313,7 +313,7 @@ pub(super) fn derive_schema(input: TokenStream) -> syn::Result<TokenStream> {
                 /* `anyOf`: elements of the same (or overlapping, like integer and number) types match more than one */
                 Ok(quote! {
                     ::ohkami::openapi::array(::ohkami::openapi::anyOf(
-                        (#(#type_schemas,)*)
+                        vec![#(::std::convert::Into::<::ohkami::openapi::schema::SchemaRef>::into(#type_schemas),)*]
                     ))
                 })
             }
@@ -455,13 +455,13 @@ pub(super) fn derive_schema(input: TokenStream) -> syn::Result<TokenStream> {
                 /* nothing makes untagged variants mutually exclusive: serde takes the first that reads */
                 Ok(quote! {
                     ::ohkami::openapi::anyOf(
-                        ( #(#variant_schemas,)* )
+                        vec![#(::std::convert::Into::<::ohkami::openapi::schema::SchemaRef>::into(#variant_schemas),)*]
                     )
                 })
             } else {
                 Ok(quote! {
                     ::ohkami::openapi::oneOf(
-                        ( #(#variant_schemas,)* )
+                        vec![#(::std::convert::Into::<::ohkami::openapi::schema::SchemaRef>::into(#variant_schemas),)*]
                     )
                 })
             }
